@@ -8,9 +8,9 @@ CONSTANTS
   MaxReqs = 1
   MaxDkgDeliver = 1
   MaxRelayDeliver = 1
-  MaxBad = 0
-  MaxStops = 1
-  MaxViewMis = 1
+  MaxBad = 1
+  MaxStops = 0
+  MaxViewMis = 0
   Prompt = TRUE
   Agreement = TRUE
   DedupOn = TRUE
